@@ -60,16 +60,16 @@ func init() {
 		"StatusConflict": http.StatusConflict, "StatusGone": http.StatusGone,
 		"StatusLengthRequired": http.StatusLengthRequired, "StatusPreconditionFailed": http.StatusPreconditionFailed,
 		"StatusRequestEntityTooLarge": http.StatusRequestEntityTooLarge, "StatusRequestURITooLong": http.StatusRequestURITooLong,
-		"StatusUnsupportedMediaType": http.StatusUnsupportedMediaType,
+		"StatusUnsupportedMediaType":         http.StatusUnsupportedMediaType,
 		"StatusRequestedRangeNotSatisfiable": http.StatusRequestedRangeNotSatisfiable,
-		"StatusExpectationFailed": http.StatusExpectationFailed, "StatusTeapot": http.StatusTeapot,
+		"StatusExpectationFailed":            http.StatusExpectationFailed, "StatusTeapot": http.StatusTeapot,
 		"StatusMisdirectedRequest": http.StatusMisdirectedRequest, "StatusUnprocessableEntity": http.StatusUnprocessableEntity,
 		"StatusLocked": http.StatusLocked, "StatusFailedDependency": http.StatusFailedDependency,
 		"StatusTooEarly": http.StatusTooEarly, "StatusUpgradeRequired": http.StatusUpgradeRequired,
 		"StatusPreconditionRequired": http.StatusPreconditionRequired, "StatusTooManyRequests": http.StatusTooManyRequests,
 		"StatusRequestHeaderFieldsTooLarge": http.StatusRequestHeaderFieldsTooLarge,
-		"StatusUnavailableForLegalReasons": http.StatusUnavailableForLegalReasons,
-		"StatusInternalServerError": http.StatusInternalServerError, "StatusNotImplemented": http.StatusNotImplemented,
+		"StatusUnavailableForLegalReasons":  http.StatusUnavailableForLegalReasons,
+		"StatusInternalServerError":         http.StatusInternalServerError, "StatusNotImplemented": http.StatusNotImplemented,
 		"StatusBadGateway": http.StatusBadGateway, "StatusServiceUnavailable": http.StatusServiceUnavailable,
 		"StatusGatewayTimeout": http.StatusGatewayTimeout, "StatusHTTPVersionNotSupported": http.StatusHTTPVersionNotSupported,
 		"StatusVariantAlsoNegotiates": http.StatusVariantAlsoNegotiates, "StatusInsufficientStorage": http.StatusInsufficientStorage,
@@ -86,10 +86,10 @@ type unsupported struct{ what string }
 func fail(format string, a ...interface{}) { panic(unsupported{fmt.Sprintf(format, a...)}) }
 
 type tr struct {
-	fset   *token.FileSet
-	consts map[string]string // package-level constants of the file set, already as Coq Z terms
-	strs   map[string]string // package-level string constants
-	wrapMul bool             // int64 arithmetic: products are wrapped to 64 bits
+	fset    *token.FileSet
+	consts  map[string]string // package-level constants of the file set, already as Coq Z terms
+	strs    map[string]string // package-level string constants
+	wrapMul bool              // int64 arithmetic: products are wrapped to 64 bits
 }
 
 func zlit(v int64) string {
